@@ -11,7 +11,7 @@ TEXTS = {
   level_text=("Generated search with a reference model (the log of accepted writes): every Recv/Read return of every generated run is compared "
               "byte-for-byte with a position-dependent stream, and in message mode with the chunk boundaries. Raw core in stream and message mode (E1) "
               "and real sessions for all 16 cipher settings x FEC ratios x windows x MTU x nodelay x stream/write-delay (E2), under generated "
-              "drop/delay/duplicate/reorder/outage scripts in both directions. Holds on everything generated; not a proof."),
+              "drop/delay/duplicate/reorder/outage scripts in both directions; TestC01FreeRun repeats the session runs with the lock-step loop switched off (writer, reader, read loops, post-processors, scheduler runner and one goroutine per datagram run concurrently in virtual time; thorough also under -race). Holds on everything generated; not a proof."),
   level_note=E1 + ". " + E2 + ". FEC ratio equal at both ends or off (unequal is C16). Raw message mode only sends messages of <= min(255, peer rcv_wnd) fragments; raw stream writes <= 200 mss (the partially-appended refused write of a >255-segment stream Send is outside the generated domain).",
   rule=("Case = (configuration, fault script, application script) drawn by rapid; distinct by hash of that descriptor. Non-trivial = the run contained >=1 retransmitted sn "
         "AND >=1 of {duplicate delivered, out-of-order delivery into the receive heap, FEC-recovered packet fed to the core, read smaller than the pending message}.")),
